@@ -248,7 +248,50 @@ def _depth_entry(d1: int, dirkind: int, dirlevel: int, v: bool, limit: int, vm: 
     return result(ok, exp_depth > LIM)
 
 
+# ---- meta-fields are fields: the introspection root fields open the deepest selections a client can write
+META_DOCS = (
+    ("{ __schema { queryType { name } } keep }", 2),
+    ("{ __type(name: \"T\") { fields { type { ofType { name } } } } keep }", 4),
+    ("{ a { __typename } }", 1),
+    ("{ ...F keep } fragment F on T { __schema { types { name } } }", 2),
+    ("{ x: __schema { types { fields { args { type { name } } } } } a { keep } }", 5),
+    ("{ ... on T { s: __schema { directives { args { name } } } } }", 3),
+    ("{ a { a { keep } } __typename }", 2),
+    ("query ($v: Boolean!) { __schema @skip(if: $v) { types { fields { name } } } a { keep } }", None),      # depth 3 when $v is false, 1 when true
+)
+
+
+def _depth_meta(doc: int, limit: int, v: bool, entry: int) -> bool:
+    """
+    pre: 0 <= doc < len(META_DOCS) and -1 <= limit <= 6 and 0 <= entry <= 1
+    post: _
+    """
+    text, depth = pick(doc, META_DOCS)
+    LIM, EN, V = concrete_int(limit, -1, 6), concrete_int(entry, 0, 1), (True if v else False)
+    with untraced():
+        if depth is None:
+            depth = 1 if V else 3
+        variables = {"v": V} if "$v" in text else {}
+        if EN == 0:
+            errors = MaxDepthValidationRule(LIM)(entry_schema(), parse(text), variables)
+            flagged = len(errors) > 0
+            ok = isinstance(errors, list) and len(errors) <= 1
+        else:
+            from py_gql import graphql_blocking
+            res = graphql_blocking(entry_schema(), text, variables=variables, validators=[MaxDepthValidationRule(LIM)], root={})
+            flagged = any("exceeds maximum depth" in str(e) for e in (res.errors or []))
+            ok = True
+        ok = ok and flagged == (depth > LIM)
+    return result(ok, depth > LIM)
+
+
 CONDITIONS = [
+    Cond(
+        name="depth_meta", fn=_depth_meta, quick=60, thorough=60,
+        bound="%d operations whose deepest path runs through meta-fields (__schema / __type at the root, aliased, inside fragments, switched by a variable; __typename leaves) x every limit -1..6 x the rule called directly or as a validator of "
+              "graphql_blocking: flagged exactly when the written depth exceeds the limit" % len(META_DOCS),
+        symbolic={"doc,limit,entry": "choice", "v": "data"}, witness={"doc": 0, "limit": 1, "v": False, "entry": 0},
+    ),
     Cond(
         name="depth_entry", fn=_depth_entry, quick=60, thorough=120, per_path=30, shards_quick=8, shards_thorough=8,
         bound="the rule passed as `validators=[...]` to graphql_blocking / process_graphql_query with the REQUEST's variables: chains of depth 1..3 with @skip / @include(if: $v) at any level, $v given in the request or left to the "
